@@ -375,7 +375,7 @@ func (e *E1) callGuardDepth(kind PassKind, depth int, names ...string) Guard {
 				continue
 			}
 			if h := c.Common().StaticCallee(); h != nil && h.Blocks != nil && h != e.Fn {
-				if strings.HasPrefix(h.Pkg.Pkg.Path(), modPath) && litPassesCall(l, c, PassAuto) &&
+				if inModule(h) && litPassesCall(l, c, PassAuto) &&
 					establishes(h, depth) {
 					return true
 				}
@@ -399,7 +399,7 @@ func (e *E1) callGuardDepth(kind PassKind, depth int, names ...string) Guard {
 			return k == autoPass(c.Common().Signature())
 		}
 		if h := c.Common().StaticCallee(); h != nil && h.Blocks != nil && h != e.Fn &&
-			strings.HasPrefix(h.Pkg.Pkg.Path(), modPath) {
+			inModule(h) {
 			return establishes(h, depth)
 		}
 		return false
